@@ -23,8 +23,8 @@ def consts(kind, c, emit):
 def model_check(res, kind, c, workers=8, timeout=900):
     invs = "DeliveriesOK NoOnTimeLoss WmOK ImplOK" + (" NotBeforeS0" if kind == "sliding" else "")
     cfg = "SPECIFICATION Spec\nCONSTANTS %s\nINVARIANTS %s\nPROPERTY WmMonotone\nVIEW View\nCHECK_DEADLOCK FALSE\n" % (consts(kind, c, False), invs)
-    if c["al"] > 0 and kind == "tumbling":
-        cfg = cfg.replace("INVARIANTS DeliveriesOK", "INVARIANTS DeliveriesOKDev")
+    if c["al"] > 0 and kind == "tumbling" and "LateUpdateOvertakes" in vlib.known_devs(res.prop):
+        cfg = cfg.replace("INVARIANTS DeliveriesOK", "INVARIANTS OneFirstFiring DeliveriesOKDev")
     r = vlib.tlc(SPEC, MODULE[kind], cfg, workers=workers, timeout=timeout)
     res.add_model(MODULE[kind], r, dict(c, kind=kind))
     if not r["ok"]:
@@ -80,14 +80,14 @@ def run_family(prop, tier, plan, free_plan, assumptions):
     tr_path = os.path.join(vlib.scratch(), "trace.ndjson")
     scen = {}
     n = 0
+    sampled = False
     with open(sc_path, "w") as f:
         for kind, c in plan:
             steps_list = generate(res, kind, c)
             cap = c.get("cap")
             if cap and len(steps_list) > cap:
                 steps_list = rng.sample(steps_list, cap)
-            else:
-                res.cov["exhaustive"] = True
+                sampled = True
             for steps in steps_list:
                 n += 1
                 sc = {"tr": n, "cfg": mkcfg(kind, c, rng), "steps": steps, "free": False}
@@ -131,6 +131,7 @@ def run_family(prop, tier, plan, free_plan, assumptions):
                        "replayed with the same interleaving on the real engine through verif gates, plus seeded free-running inputs; "
                        "distinct = distinct step sequences with more than one step")
     res.cov["samples"] = [scen[k] for k in sorted(scen)[:2]] + ([scen[n]] if n > 2 else [])
+    res.cov["exhaustive"] = not sampled
     res.cov["plan"] = [dict(c, kind=k) for k, c in plan]
     res.assumptions = assumptions
     for kind, c in plan:
